@@ -65,13 +65,38 @@ impl Write for Sink {
     }
 }
 
-pub struct Pieces(pub Vec<String>);
+/// A `Display` impl that hands its text to the formatter in the given pieces.  The second field
+/// selects *how* a piece is handed over — a Display impl is free to use any of the formatter's
+/// entry points: `write_str`, `write_char` (single-character pieces), `write!` with a `{}` argument,
+/// `write_fmt` with a literal-free format — all of which must deliver the same text.
+pub struct Pieces(pub Vec<String>, pub u8);
 impl fmt::Display for Pieces {
     fn fmt(&self, f: &mut fmt::Formatter) -> fmt::Result {
-        for p in &self.0 {
-            f.write_str(p)?;
+        use fmt::Write;
+        for (i, p) in self.0.iter().enumerate() {
+            let mut cs = p.chars();
+            let single = match (cs.next(), cs.next()) {
+                (Some(c), None) => Some(c),
+                _ => None,
+            };
+            match ((self.1 as usize + i) % 4, single) {
+                (1, Some(c)) => f.write_char(c)?,
+                (2, Some(c)) => write!(f, "{c}")?,
+                (3, _) => write!(f, "{p}")?,
+                (2, None) => f.write_fmt(format_args!("{}", p.as_str()))?,
+                _ => f.write_str(p)?,
+            }
         }
         Ok(())
+    }
+}
+
+/// a user `ToHtml` impl that writes something and then reports an error
+pub struct BadItem;
+impl ToHtml for BadItem {
+    fn to_html(&self, out: &mut dyn io::Write) -> io::Result<()> {
+        out.write_all(b"<li>")?;
+        Err(io::Error::new(io::ErrorKind::Other, "item failed"))
     }
 }
 
@@ -190,7 +215,7 @@ fn all_scheds(alpha: &[Resp], maxlen: usize) -> Vec<Vec<Resp>> {
 
 fn gen_cases(args: &crate::Args) -> Vec<Case> {
     let thorough = args.tier == "thorough";
-    let alpha: Vec<char> = vec!['<', '>', '&', '"', '\'', 'a', 'é', ' '];
+    let alpha: Vec<char> = vec!['<', '>', '&', '"', '\'', 'a', 'é', ' ', '\u{13c}'];
     let maxlen = if thorough { 4 } else { 3 };
     let sched_alpha = [Resp::Accept(1), Resp::Accept(2), Resp::Accept(1 << 20), Resp::Interrupted];
     let scheds = all_scheds(&sched_alpha, if thorough { 4 } else { 3 });
@@ -232,7 +257,9 @@ fn gen_cases(args: &crate::Args) -> Vec<Case> {
     }
     // random part: longer strings, failures, zero-length accepts
     let mut r = Rng::new(args.seed, "html");
-    let pool: Vec<&str> = vec!["<", ">", "&", "\"", "'", "a", "bc", "é", "日本", " ", "&amp;", "&lt;", "<script>", "\u{0}", "\n", "😀", "xyz0123456789"];
+    let pool: Vec<&str> = vec!["<", ">", "&", "\"", "'", "a", "bc", "é", "日本", " ", "&amp;", "&lt;", "<script>", "\u{0}", "\n", "😀", "xyz0123456789",
+        // scalars whose low byte is one of the five specials (U+2022, U+0126, U+0127, U+013C, U+013E, U+1F33C)
+        "\u{2022}", "\u{126}", "\u{127}", "\u{13c}", "\u{13e}", "\u{1f33c}"];
     for _ in 0..args.n {
         let np = r.below(6);
         let mut pieces = Vec::new();
@@ -289,8 +316,18 @@ pub fn run(args: &crate::Args) {
             stats.hit("text.has_special");
             distinct.insert((c.mode, text.clone()));
         }
+        // a rendering that fails part-way (a user ToHtml impl that reports an error after writing something)
+        // happens between the others, on the same thread: it must return the error and must not leave anything
+        // behind that shows up in a later buffer.  (A Display impl that returns Err on its own breaks the fmt
+        // contract — std's write_fmt panics on it — so that is not exercised.)
+        if i % 7 == 3 {
+            stats.hit("failing_renderings");
+            if BadItem.to_buffer().is_ok() {
+                writeln!(orc, "{{\"tags\":[\"C06\",\"C14\"],\"kind\":\"failed-rendering-reported-ok\",\"case\":{i},\"detail\":\"to_buffer() of a value whose to_html fails returned Ok\"}}").unwrap();
+            }
+        }
         let mut sink = Sink::new(c.sched.clone());
-        let val = Pieces(c.pieces.clone());
+        let val = Pieces(c.pieces.clone(), (i % 4) as u8);
         let mut eq_ok = true;
         let res: io::Result<()> = match c.mode {
             "esc" => val.to_html(&mut sink),
